@@ -1,8 +1,9 @@
 #!/bin/bash
 # usage: tools/run_all.sh [tier] [ids...]  -> runs checks sequentially, prints one summary line each
+HERE="$(cd "$(dirname "${BASH_SOURCE[0]}")/.." && pwd)"
 TIER=${1:-quick}; shift
-IDS="$@"; [ -z "$IDS" ] && IDS=$(python3 -c "import json;print(' '.join(c['property_id'] for c in json.load(open('/verif/MANIFEST.json'))['checks']))")
+IDS="$@"; [ -z "$IDS" ] && IDS=$(python3 -c "import json;print(' '.join(c['property_id'] for c in json.load(open('$HERE/MANIFEST.json'))['checks']))")
 for id in $IDS; do
-  /verif/check $id --tier $TIER > /tmp/runall_$id.log 2>&1; rc=$?
+  "$HERE/check" $id --tier $TIER > /tmp/runall_$id.log 2>&1; rc=$?
   echo "$id exit=$rc $(grep -c '^VIOLATION' /tmp/runall_$id.log) viol, $(grep -c '^KNOWN-FINDING' /tmp/runall_$id.log) known | $(tail -1 /tmp/runall_$id.log | cut -c1-170)"
 done
